@@ -112,7 +112,7 @@ def FlF (cf : Cfg) (q p : Bool) (n : Nat) (pc : Option Nat) (pid : Bool) : Prop 
   (q = true → (∀ i, n ≤ i → cf.fails i = false) ∧ (pc.isSome = true → pid = true)) ∧ (p = true → pid = true)
 
 /-- the base invariant -/
-abbrev G (cf : Cfg) (q p : Bool) (s : St) : Prop :=
+def G (cf : Cfg) (q p : Bool) (s : St) : Prop :=
   AccF s.poolCon s.nextCon s.closed ∧ WBF s.trace s.pre s.lock s.bad ∧ FlF cf q p s.n s.poolCon s.poolPid
 
 @[simp] theorem WBF_call (c k ok tr pr l b) : WBF (Ev.call c k ok :: tr) pr l b = WBF tr pr l b := by
@@ -187,7 +187,7 @@ theorem AccF_new {nc cl} (h : AccF none nc cl) : AccF (some nc) (nc + 1) cl := b
     have := h3 k hk; omega
 
 /-- the functions below the provider leave these fields alone -/
-abbrev PoolFr (s s' : St) : Prop := s'.lock = s.lock ∧ s'.cache = s.cache ∧ s'.hasCache = s.hasCache
+def PoolFr (s s' : St) : Prop := s'.lock = s.lock ∧ s'.cache = s.cache ∧ s'.hasCache = s.hasCache
 
 theorem spec_poolDrop (cf : Cfg) (q p : Bool) (con : Nat) (s : St) (hG : G cf q p s) (hc : s.poolCon = some con) :
     wp (poolDrop cf con)
@@ -290,10 +290,10 @@ theorem WBF_acquire {tr pr b} (h : WBF tr pr false b) :
   simp_all [WBF, lockState]
 
 /-- everything of the cache object except `in_transaction` -/
-abbrev CFr (c c' : Cache) : Prop :=
+def CFr (c c' : Cache) : Prop :=
   c'.conn = c.conn ∧ c'.immediate = c.immediate ∧ c'.savedFk = c.savedFk ∧ c'.pending = c.pending
 
-abbrev Fr3 (s s' : St) : Prop := s'.poolCon = s.poolCon ∧ s'.hasCache = s.hasCache
+def Fr3 (s s' : St) : Prop := s'.poolCon = s.poolCon ∧ s'.hasCache = s.hasCache
 
 /-- unfold the invariants to facts about fields and let `simp_all` finish -/
 macro "inv_simp" : tactic => `(tactic| simp_all [G, WBF, lockState, CFr, Fr3, PoolFr])
@@ -348,5 +348,29 @@ theorem quiet_facts {cf p n pc pid} (h : FlF cf true p n pc pid) :
   exact ⟨⟨hq _ (by omega), hq _ (by omega), hq _ (by omega), hq _ (by omega), hq _ (by omega)⟩,
     FlF_true_intro hq (by omega) h1 h2, FlF_true_intro hq (by omega) h1 h2, FlF_true_intro hq (by omega) h1 h2,
     FlF_true_intro hq (by omega) h1 h2, FlF_true_intro hq (by omega) h1 h2⟩
+
+/-- `SQLiteProvider.set_transaction_mode`: ends holding the lock exactly when it has set `in_transaction` -/
+theorem spec_setTransactionMode (cf : Cfg) (q p : Bool) (con : Nat) (s : St) (hG : G cf q p s)
+    (hin : s.cache.inTx = false) (hl : s.lock = false) (hddl : cf.ddl = true → s.cache.immediate = true) :
+    wp (setTransactionMode cf con)
+      (fun _ s' => G cf q p s' ∧ s'.cache.inTx = s.cache.immediate ∧ s'.lock = s.cache.immediate ∧
+                   s'.cache.conn = s.cache.conn ∧ s'.cache.immediate = s.cache.immediate ∧ s'.cache.pending = s.cache.pending ∧
+                   Fr3 s s' ∧ (s'.dirty = true → s.dirty = true ∨ s.cache.immediate = true))
+      (fun _ s' => (G cf q p s' ∧ s'.cache.inTx = false ∧ s'.lock = false ∧
+                    s'.cache.conn = s.cache.conn ∧ s'.cache.immediate = s.cache.immediate ∧ s'.cache.pending = s.cache.pending ∧
+                    Fr3 s s') ∧ q = false) s := by
+  obtain ⟨hA, hW, hF⟩ := hG
+  obtain ⟨hb, hpre, hls⟩ := hW
+  rw [hl] at hls
+  cases q with
+  | true =>
+    obtain ⟨⟨h0, h1, h2, h3, h4⟩, hF1, hF2, hF3, hF4, hF5⟩ := quiet_facts hF
+    cases himm : s.cache.immediate <;> cases hd : cf.ddl <;> cases hfk : s.fk <;>
+      simp [setTransactionMode, conCursor, hin, himm, hd, hfk, hl, hpre, h0, h1, h2, h3, fkAfter, dirtyAfter] <;>
+      simp_all [G, WBF, lockState, CFr, Fr3]
+  | false =>
+    cases himm : s.cache.immediate <;> cases hd : cf.ddl <;> cases hfk : s.fk <;>
+      simp [setTransactionMode, conCursor, hin, himm, hd, hfk, hl, hpre, fkAfter, dirtyAfter] <;>
+      (repeat' split) <;> simp_all [G, WBF, lockState, CFr, Fr3]
 
 end PonyVerif.Model.ConnLock
